@@ -352,51 +352,37 @@ func (i *insertExecutor) parsePkValuesFromStatement(insertStmt *ast.InsertStmt, 
 		if insertRows == nil || len(insertRows) == 0 {
 			return nil, err
 		}
-		totalPlaceholderNum := -1
+		isPlaceholder := func(v interface{}) bool {
+			str, ok := v.(string)
+			return ok && strings.EqualFold(str, sqlPlaceholder)
+		}
+		// number of placeholders in the rows before the current one
+		placeholderBase := 0
 		for _, row := range insertRows {
 			if len(row) == 0 {
 				continue
 			}
-			currentRowPlaceholderNum := -1
-			for _, r := range row {
-				rStr, ok := r.(string)
-				if ok && strings.EqualFold(rStr, sqlPlaceholder) {
-					totalPlaceholderNum += 1
-					currentRowPlaceholderNum += 1
-				}
-			}
-			var pkKey string
-			var pkIndex int
-			var pkValues []interface{}
-			for key, index := range pkIndexMap {
-				curKey := key
-				curIndex := index
-
-				pkKey = curKey
-				pkValues = pkValuesMap[pkKey]
-
-				pkIndex = curIndex
+			for pkKey, pkIndex := range pkIndexMap {
 				if pkIndex > len(row)-1 {
 					continue
 				}
 				pkValue := row[pkIndex]
-				pkValueStr, ok := pkValue.(string)
-				if ok && strings.EqualFold(pkValueStr, sqlPlaceholder) {
-					currentRowNotPlaceholderNumBeforePkIndex := 0
-					for i := range row {
-						r := row[i]
-						rStr, ok := r.(string)
-						if i < pkIndex && ok && !strings.EqualFold(rStr, sqlPlaceholder) {
-							currentRowNotPlaceholderNumBeforePkIndex++
+				if isPlaceholder(pkValue) {
+					// the argument of this placeholder: count the placeholders that precede it
+					before := 0
+					for c := 0; c < pkIndex; c++ {
+						if isPlaceholder(row[c]) {
+							before++
 						}
 					}
-					idx := totalPlaceholderNum - currentRowPlaceholderNum + pkIndex - currentRowNotPlaceholderNumBeforePkIndex
-					pkValues = append(pkValues, nameValues[idx].Value)
-				} else {
-					pkValues = append(pkValues, pkValue)
+					pkValue = nameValues[placeholderBase+before].Value
 				}
-				if _, ok := pkValuesMap[pkKey]; !ok {
-					pkValuesMap[pkKey] = pkValues
+				// every row contributes its key, not only the first one
+				pkValuesMap[pkKey] = append(pkValuesMap[pkKey], pkValue)
+			}
+			for _, r := range row {
+				if isPlaceholder(r) {
+					placeholderBase++
 				}
 			}
 		}
